@@ -170,20 +170,25 @@ def main(tier):
     items = [_items(a) for a in POOL]
     tmpd = tempfile.mkdtemp(prefix='verif_c09_')
     try:
-        shutil.copy(os.path.join(tlc.SPEC_DIR, 'Spelling.tla'), tmpd)
-        shutil.copy(os.path.join(tlc.SPEC_DIR, 'Str.tla'), tmpd)
-        shutil.copy(os.path.join(tlc.SPEC_DIR, 'Lexer.tla'), tmpd)
+        for fn in os.listdir(tlc.SPEC_DIR):
+            if fn.endswith('.tla') and not fn.startswith(('MC_', 'Trace_')):
+                shutil.copy(os.path.join(tlc.SPEC_DIR, fn), tmpd)
+        # pool entries inside the grammar of ParseSel.tla / Ir.tla (no :lang / :dir / contains / HTML state pseudo-classes, no at-rules)
+        ir_pool = [k + 1 for k, a in enumerate(POOL) if not re.search(r'lang\}|dir\}|contains|checked', a)]
         with open(os.path.join(tmpd, 'MC_C09_gen.tla'), 'w') as f:
             f.write('---- MODULE MC_C09_gen ----\n\\* generated from the annotated pool of checks/c09.py\nEXTENDS Spelling, Lexer, Json\n'
                     '\\* T-Spelling: a respelling lexes (Lexer.tla) to the same token kinds and combinators as the canonical spelling\n'
                     'TSpelling == KindsRel(Render(Pool[sel], sp)) = KindsRel(Render(Pool[sel], [i \\in 1..Len(sp) |-> 0]))\n'
+                    '\\* T-SpellingIR: the composed front end text -> tokens -> AST -> IR (Lexer, ParseSel, Ir) gives a respelling the IR of the canonical spelling\n'
+                    'P == INSTANCE ParseSel\nI == INSTANCE Ir\nIrPool == { %s }\n'
+                    'TSpellingIR == sel \\in IrPool => I!Compile(P!ParseText(Render(Pool[sel], sp))) = I!Compile(P!ParseText(Render(Pool[sel], [i \\in 1..Len(sp) |-> 0])))\n'
                     'PoolDef == << %s >>\n'
                     'Emit == PrintT(ToJson([sel |-> sel, text |-> Render(Pool[sel], sp), canon |-> Render(Pool[sel], [i \\in 1..Len(sp) |-> 0])]))\n====\n'
-                    % ',\n  '.join(_tla_items(it) for it in items))
+                    % (', '.join(str(k) for k in ir_pool), ',\n  '.join(_tla_items(it) for it in items)))
         dev = 1 if tier == 'quick' else 2
         cfgdir = tmpd
         with open(os.path.join(tmpd, 'c09.cfg'), 'w') as f:
-            f.write('CONSTANTS\n Pool <- PoolDef\n MaxDev = %d\nINIT Init\nNEXT Next\nINVARIANT Emit\nINVARIANT CanonicalIsIdentity\nINVARIANT TSpelling\nCHECK_DEADLOCK FALSE\n' % dev)
+            f.write('CONSTANTS\n Pool <- PoolDef\n MaxDev = %d\nINIT Init\nNEXT Next\nINVARIANT Emit\nINVARIANT CanonicalIsIdentity\nINVARIANT TSpelling\nINVARIANT TSpellingIR\nCHECK_DEADLOCK FALSE\n' % dev)
         # reuse the streaming machinery with a pre-written cfg
         import multiprocessing as mp
         ctx = mp.get_context('fork')
@@ -222,4 +227,70 @@ def main(tier):
         _lex_binding(chk, texts if tier == 'quick' else texts[::7])
     finally:
         shutil.rmtree(tmpd, ignore_errors=True)
+    _respell_part(chk, tier)
+    from harness import parsebind
+    parsebind.part(chk, tier, 'trace-parse', seed=9)
     return chk.finish()
+
+
+def _respell_work(H, chunk):
+    import random
+    from harness import sel as selmod
+    sv = H['sv']
+    viols = []
+    n = 0
+    for (ast, seed) in chunk:
+        selmod.SPELL = None
+        canon = selmod.selector_list(ast)
+        try:
+            cobj = sv.compile(canon, namespaces={'ns': 'urn:n'})
+        except Exception:
+            continue          # (validity of the generated canonical text is C06's / C01's business)
+        for j in range(4):
+            selmod.SPELL = random.Random(seed * 4 + j)
+            try:
+                text = selmod.selector_list(ast)
+            finally:
+                selmod.SPELL = None
+            n += 1
+            try:
+                obj = common.guard(lambda: sv.compile(text, namespaces={'ns': 'urn:n'}), 20)
+            except Exception as ex:
+                viols.append(('respell|%r|%r' % (canon, text), 'respelling %r of %r raised %s' % (text, canon, type(ex).__name__),
+                              {'selector': canon, 'spelling': text, 'group': 'respell raise', 'cfg': 'respell'}))
+                continue
+            if not (obj.selectors == cobj.selectors):
+                viols.append(('respell|%r|%r' % (canon, text), 'respelling %r of %r compiles to a different structure' % (text, canon),
+                              {'selector': canon, 'spelling': text, 'group': 'respell structure', 'cfg': 'respell'}))
+    return viols, n, n, None
+
+
+def _respell_part(chk, tier):
+    """The rewrite rules of Spelling.tla applied at random positions of RANDOM selectors of the whole modelled grammar (harness/gen.py ASTs,
+    harness/sel.py SPELL): every identifier / string character escaped in one of the ways of Spelling.tla, quote style, bare identifier
+    values, line continuations, keyword case, white space and comments in the optional slots.  Oracle = the property's law
+    (equal structures); the same texts go through Trace_Parse below, where the specification computes the IR from the characters."""
+    import random
+    import multiprocessing as mp
+    from harness import gen
+    rng = random.Random(common.SEED * 7919 + 909)
+    gen.EXCLUDE = set()
+    n = 1500 if tier == 'quick' else 40000
+    jobs = []
+    for k in range(n):
+        ast = gen.rand_list(rng, depth=rng.choice([0, 1, 2, 2, 3]))
+        for cx in ast:
+            for comp in cx['cs']:
+                if rng.random() < 0.35:
+                    comp.append(gen.rand_extra(rng))
+                if rng.random() < 0.15 and comp and comp[0]['k'] == 'type':
+                    comp[0]['ns'] = rng.choice([{'t': 'any'}, {'t': 'none'}, {'t': 'pfx', 'p': common.cps('ns')}])
+        jobs.append((ast, rng.getrandbits(30)))
+    chunks = [jobs[i::64] for i in range(64) if jobs[i::64]]
+    with mp.get_context('fork').Pool(16, initializer=replay._ginit, initargs=([], _init)) as pool:
+        outs = pool.map(replay._gwork, [(_respell_work, c) for c in chunks])
+    for viols, ncalls, nontriv, samp in outs:
+        chk.count(ncalls, traces=ncalls)
+        chk.add_distinct(nontriv)
+        for key, what, case in viols:
+            chk.violation(key, what, case)
